@@ -1,7 +1,7 @@
 (* C01 — Accepted metric data is never silently lost between agent and storage.
    Only the property theorems (closed by [exact]) and non-vacuity examples. *)
 From Coq Require Import ZArith List Bool.
-From SH Require Import Common.Wrap Routing.Model Gen.PipelineConsts Pipeline.Model Pipeline.ProofsAgent Pipeline.ProofsAgg Pipeline.Proofs.
+From SH Require Import Common.Wrap Routing.Model Gen.PipelineConsts Pipeline.Model Pipeline.ProofsAgent Pipeline.ProofsAgg Pipeline.Proofs Pipeline.ProofsLive.
 Import ListNotations.
 Open Scope Z_scope.
 
@@ -43,11 +43,20 @@ Proof. exact ack_only_after_insert_or_reject. Qed.
    insert, stale historic buckets discard, conveyor-full answers carry no discard, undecodable / old agent / wrong
    shard discard, shutdown hijacks without answering *)
 Theorem C01_model_answers_are_source_answers :
-  forall ok,
-  gen_insert_discard ok = ok /\ gen_stale_discard ok = true /\ gen_full_discard ok = false /\
+  forall ok r,
+  insert_answer ok r = (if ok then GvAck r else GvError r) /\ full_answer r = GvKeep r /\
+  gen_stale_discard ok = true /\
   forallb (fun x => x) gen_undecodable_discard = true /\ gen_old_agent_discard = true /\ gen_wrong_shard_discard = true /\
   gen_shutdown_discard = false /\ gen_shutdown_hijacks = true.
 Proof. exact gen_answers_tie. Qed.
+
+(* the agent-visible answer after a FAILED insert is an rpc error whatever discard bit the aggregator wrote into the
+   response body (goInsert passes sendErr to SendLongpollResponse; the rpc layer then sends the error instead of the
+   body): a change of that bit alone (e.g. SetDiscard(true)) is harmless, and the check stays green on it *)
+Theorem C01_failed_insert_answer_is_error_whatever_discard_bit :
+  forall (flag : bool -> bool) r,
+  (if negb false && gen_insert_sends_err then GvError r else if flag false then GvAck r else GvKeep r) = GvError r.
+Proof. exact failed_insert_is_error_whatever_flag. Qed.
 
 (* Both clauses together, over all interleavings of one agent shard with the three replicas of its aggregator shard,
    "under any sequence of insert failures, lost responses, aggregator restarts and replica failover": an accepted
@@ -62,17 +71,53 @@ Theorem C01_no_silent_loss :
   \/ (exists x, In (EvDrop k x) (s_alog s)).
 Proof. exact no_silent_loss. Qed.
 
-(* "every second that stays inside the historic window is eventually inserted at least once" — PARTIAL.
-   Proved: one step of progress on the aggregator side (a request waiting in the bucket at the head of the insert queue
-   is acknowledged, with its second in the store, by one insert step whose INSERT succeeds).  Together with the safety
-   theorem above (a buffered second is never dropped while inside the window and resources suffice, so it is re-sent)
-   this is "no loss, and progress whenever an insert succeeds".  NOT proved: the unconditional "eventually" over
-   infinite fair runs (it needs fairness of the senders/ticker and "faults eventually stop"); see the check's notes. *)
-Theorem C01_inserted_at_least_once_partial :
-  forall g b q r n hw g' ev,
-  g_queue g = b :: q -> In r (b_contrib b) -> binv b -> ginsert g true n hw = (g', ev) ->
-  In (r_key r) (store_of ev) /\ In (GvAck r) ev.
-Proof. exact queue_head_inserted. Qed.
+(* "every second that stays inside the historic window is eventually inserted at least once" — PARTIAL (bounded form).
+   From EVERY reachable state of the composed system, for the second the historic conveyor holds (popped, in a sender's
+   hands), any replica i that is up: the fault-free continuation [round_ops] (the replica's clock passes its window,
+   the request arrives, the clock passes the fresh window, the inserters work through the conveyor with every INSERT
+   succeeding, the answer arrives) is a sequence of real steps of the system, of explicit length
+   [round_len g sw] = 4 + (buckets on the conveyor + buckets of the recent window + ShortWindow + FutureWindow),
+   and ends with the second's rows in the store and the acknowledgement consumed by the agent.  Premises: the second is
+   not in the replica's future, stays inside the historic window for the length of the round (margin of
+   ShortWindow + 4 s), has its data (memory or disk), no uint32 wrap of the clocks.
+   NOT proved: the same for a second that is not the oldest one (it needs one round per older buffered second:
+   [drain] for n > 1), and that real schedules are fair. *)
+Theorem C01_inserted_within_one_round_partial :
+  forall disk_on now0 sw0 s i g it now sw hw,
+  sreach (sys_init disk_on now0 sw0) s ->
+  nth_error (s_aggs s) i = Some g -> g_down g = false -> 1 <= g_rk g <= 3 ->
+  find_item (it_key it) (a_out (s_agent s)) = Some it ->
+  out_of_window now (it_time it) hw = false -> (it_data it = true \/ a_disk_on (s_agent s) = true) ->
+  0 <= sw -> 0 <= it_time it -> sw <= flush_time g sw -> flush_time g sw + sw + 8 < two32 ->
+  it_time it + 2 <= flush_time g sw + 3 ->
+  flush_time g sw + 4 <= it_time it + hw ->
+  let s' := srun s (round_ops s i it now sw hw) in
+  sreach (sys_init disk_on now0 sw0) s' /\ In (it_key it) (store_of (s_glog s')) /\ In (EvAck (it_key it)) (s_alog s') /\
+  length (round_ops s i it now sw hw) = round_len g sw.
+Proof. exact drain_round_progress. Qed.
+
+(* the executable continuation [drain : sys -> clock -> ShortWindow -> HistoricWindow -> rounds -> sys] (primary replica
+   of each second, all replicas up), first round *)
+Theorem C01_drain_first_round_partial :
+  forall disk_on now0 sw0 s g it rest clock sw hw,
+  sreach (sys_init disk_on now0 sw0) s ->
+  a_out (s_agent s) = it :: rest ->
+  nth_error (s_aggs s) (Z.to_nat (primary_shift (it_time it))) = Some g -> g_down g = false -> 1 <= g_rk g <= 3 ->
+  out_of_window (clock O) (it_time it) hw = false -> (it_data it = true \/ a_disk_on (s_agent s) = true) ->
+  0 <= sw -> 0 <= it_time it -> sw <= flush_time g sw -> flush_time g sw + sw + 8 < two32 ->
+  it_time it + 2 <= flush_time g sw + 3 ->
+  flush_time g sw + 4 <= it_time it + hw ->
+  let s' := drain s clock sw hw 1 in
+  sreach (sys_init disk_on now0 sw0) s' /\ In (it_key it) (store_of (s_glog s')) /\ In (EvAck (it_key it)) (s_alog s').
+Proof. exact drain_first_round. Qed.
+
+(* the unbounded statement, under [fair] (ProofsLive.v): a run in which every buffered second eventually gets one
+   fault-free round while it is inside the window inserts every buffered second.  [fair] is a hypothesis about the
+   schedule and the environment ("faults eventually stop" for the length of a round); it is not derived from the code. *)
+Theorem C01_fair_runs_deliver_partial :
+  forall disk_on now0 sw0 ru, is_run (sys_init disk_on now0 sw0) ru -> fair ru ->
+  forall n k, present (s_agent (ru n)) k -> exists m', In k (store_of (s_glog (ru m'))).
+Proof. exact fair_runs_deliver. Qed.
 
 (* ---- non-vacuity ---- *)
 (* agent: second 0 (t=1000) is saved before sending, the recent send fails (lost response), it goes through the
@@ -123,3 +168,17 @@ Proof.
   - eapply SR_step; [apply SR_init|]. eapply (SS_agent _ (ORecentBegin 0%nat 1000 true true)); [exact I|reflexivity].
   - simpl. left. reflexivity.
 Qed.
+
+(* the progress theorem's premises are satisfiable: after an accept, a failed recent send and a pop, one round of the
+   continuation on replica 1 (index 0) puts the second into the store *)
+Definition ex_live_s : sys :=
+  srun (sys_init true 1000000 5)
+    [SAgent (ORecentBegin 0%nat 999996 true true); SAgent (ORecentFinish 0%nat 999999 AError true false); SAgent (OPop 1000001)].
+Definition ex_live_it : item := {| it_key := 0%nat; it_time := 999996; it_id := 1; it_data := true |}.
+Example C01_nonvacuous_round :
+  a_out (s_agent ex_live_s) = [ex_live_it] /\
+  option_map (fun g => (g_down g, flush_time g 5, round_len g 5)) (nth_error (s_aggs ex_live_s) 0) = Some (false, 1000009, 22%nat) /\
+  (let s' := srun ex_live_s (round_ops ex_live_s 0 ex_live_it 1000002 5 86400) in
+   (store_of (s_glog s'), s_alog s', length (round_ops ex_live_s 0 ex_live_it 1000002 5 86400)))
+  = ([0%nat], [EvAccept 0%nat; EvSent 0%nat false; EvSent 0%nat true; EvAck 0%nat], 22%nat).
+Proof. vm_compute. repeat split; reflexivity. Qed.
